@@ -203,6 +203,7 @@ def run_chunks(prop, tier, seed, total, jobs, workdir, known_path, extra_args=()
         a, b = chunks[ci]
         cur = a
         rep_all = []
+        watchdog_retries = 0
         while cur < b:
             if stop_after[0] is not None and ci > stop_after[0]:
                 return rep_all
@@ -239,6 +240,30 @@ def run_chunks(prop, tier, seed, total, jobs, workdir, known_path, extra_args=()
                         crash = line
                 if p.returncode < 0 and crash is None:
                     crash = "CRASH signal=%d index=unknown" % -p.returncode
+            if crash and "watchdog" in crash:
+                # The worker's watchdog measures wall-clock time. Before a stalled run counts as a hang it must stall in a
+                # fresh process as well; if it does not, the machine was overloaded: the range is run again, and if the
+                # watchdog fires a second time without a reproducible hang that is a harness error, never a violation
+                # (there would be no replay that reproduces it).
+                idx = None
+                for tok in crash.split():
+                    if tok.startswith("index=") and tok[6:].isdigit():
+                        idx = int(tok[6:])
+                hung = True
+                if idx is not None:
+                    g = subprocess.run([BIN, "gen", "--prop", prop, "--tier", tier, "--seed", str(seed), "--index", str(idx)],
+                                       stdout=subprocess.PIPE, text=True)
+                    try:
+                        st, vs = dsim_exec(prop, json.loads(g.stdout), timeout=180)
+                        hung = any(v.get("rule") in ("crash", "no-progress") for v in vs)
+                    except Exception:
+                        hung = True
+                if not hung:
+                    if watchdog_retries < 1:
+                        watchdog_retries += 1
+                        continue
+                    rep_all.append({"harness_error": "the watchdog fired twice in runs %d..%d (%s) but the run finishes in a fresh process: machine overloaded" % (cur, b, crash), "from": cur, "to": b})
+                    return rep_all
             if crash:
                 rep_all.append({"crash": crash, "from": cur, "to": b, "out": out})
                 stop_after[0] = ci if stop_after[0] is None else min(stop_after[0], ci)
